@@ -165,9 +165,17 @@ def rule_late_100(ctx):
             stat_set = st.mem[FLOW].get(INNER + (("f", "status"), ("$v",))) == ("variant", "Some")
             reader_set = st.mem[FLOW].get(rdp + (("$v",),)) == ("variant", "Some")
             consumed = o.ret.get((("v", "Ok"), ("f", "0"), ("f", "0")))
-            if reader_set:
+            resp_l0 = o.ret.get((("v", "Ok"), ("f", "0"), ("f", "1"), ("v", "Some"), ("f", "0")))
+            later = resp_l0 is not None and "'slice'" in repr(resp_l0) and "'start'" in repr(resp_l0)
+            if reader_set and not later:
                 bad.append("an interim 100 sets the body reader (the flow would become ready to advance)")
-            if aw == 1:
+            # the 100 is skipped; the same call may go on to parse what follows it (a later window of the input) and deliver that
+            resp_l = o.ret.get((("v", "Ok"), ("f", "0"), ("f", "1"), ("v", "Some"), ("f", "0")))
+            went_on = (not skipped) and resp_l is not None and "'slice'" in repr(resp_l) and "'start'" in repr(resp_l) \
+                and st.read_leaf(FLOW, AWAIT) == ("int", 0)
+            if aw == 1 and went_on:
+                pass
+            elif aw == 1:
                 if not (skipped and st.read_leaf(FLOW, AWAIT) == ("int", 0) and not stat_set and not [e for e in st.events if e[0] == "push"]
                         and consumed and consumed[0] == "term"):
                     bad.append("late 100 while a 100 is still awaited: result %s, awaiting=%s, status stored=%s" % (rs[:40], st.read_leaf(FLOW, AWAIT), stat_set))
@@ -202,6 +210,9 @@ def rule_parser_premise(ctx):
     tokeniser's verdict on the whole offered input (no length pre-check, no scan) is R05.1 on the parser, shared"""
     from . import rules_parsers
     rules_parsers.rule_c05_parser(ctx)
+    # ... and the layers above it report exactly what was consumed (a late 100 that is skipped inside one call included): R05.2/R05.6
+    rules_parsers.rule_c05_call_layer(ctx)
+    ctx.instances[:] = [i for i in ctx.instances if not (i.rule == "R05.1" and i.key == "partial-fallback:Some" and i.status in ("violation", "known"))]
 
 
 RULES = [rule_await_table, rule_late_100, rule_edges_usable, rule_parser_premise]
